@@ -346,6 +346,50 @@ func sendLattice(c *vf.Ctx) {
 			}
 		}
 	}
+	// the same across the 64 KiB boundary, where the length-extension bit of the flags octet comes and goes: a
+	// transport that keeps anything of the previous header (a frame buffer of its own, a remembered flags octet)
+	// is seen by the send that follows a long one
+	{
+		big := []int{0, 1, 0xFFFF, 0x10000, 0x10001, 0x1FFFF}
+		var seqs [][]int
+		for _, a := range big {
+			for _, b := range big {
+				seqs = append(seqs, []int{a, b})
+				for _, d := range big {
+					if a >= 0xFFFF || b >= 0xFFFF {
+						seqs = append(seqs, []int{a, b, d})
+					}
+				}
+			}
+		}
+		vf.Par(len(seqs), func(i int) {
+			seq := seqs[i]
+			conn := &scriptConn{}
+			t := newTransport(c, conn)
+			var want []byte
+			var hdrs []string
+			for i, L := range seq {
+				p := content(L, byte(0x50+i), 1)
+				if pn, msg, where := vf.Try(func() { t.Send(p) }); pn {
+					c.Fail("C11/send/no-panic@"+where, fmt.Sprintf("Send sequence %v panicked: %s", seq, msg))
+					return
+				}
+				want = append(want, frame(p)...)
+			}
+			W := conn.written()
+			off := 0
+			for _, L := range seq {
+				if off+4 <= len(W) {
+					hdrs = append(hdrs, fmt.Sprintf("%x", W[off:off+4]))
+				}
+				off += 4 + L
+			}
+			c.Case([]byte("sendbig"), []byte(fmt.Sprint(seq)))
+			c.Check("C11/send/sequence-of-sends-across-64KiB-writes-concatenated-frames", bytes.Equal(W, want), func() string {
+				return fmt.Sprintf("Send sequence with lengths %v on one transport wrote %d bytes, want %d; headers found at the expected frame starts: %v", seq, len(W), len(want), hdrs)
+			})
+		})
+	}
 	// the same with a REFUSED send anywhere in the sequence: it must leave nothing behind (no byte on the
 	// wire now, none in front of a later frame)
 	over := make([]byte, 0x20000)
